@@ -91,6 +91,13 @@ impl Iterator for Policed {
         self.next += 1;
         Some(self.next - 1)
     }
+
+    // the source knows its length (as ranges, vectors and line counts do): adapters that size
+    // their work from the hint must still keep the lookahead independent of it
+    fn size_hint(&self) -> (usize, Option<usize>) {
+        let left = self.n.saturating_sub(self.next);
+        (left, Some(left))
+    }
 }
 
 impl Drop for Policed {
